@@ -16,7 +16,9 @@ LEVEL = "proof"
 LEAN_TARGETS = ["SyneTune.Props.C02"]
 DRIVER = "SyneTune/Drivers/Poll.lean"
 SIM_DRIVER = "SyneTune/Drivers/Sim.lean"
-COMPARE = {DRIVER: poll.compare, SIM_DRIVER: sim.compare}
+LOOP_DRIVER = "SyneTune/Drivers/Loop.lean"
+from streams import loop as _loop  # noqa: E402
+COMPARE = {DRIVER: poll.compare, SIM_DRIVER: sim.compare, LOOP_DRIVER: _loop.compare}
 compare = poll.compare
 THEOREMS = [
     "SyneTune.C02.poll_prefix",
@@ -112,6 +114,24 @@ def gen_cases(rng, tier):
             "p": {"p_pause": rng.choice([0.2, 0.35]), "p_stop": rng.choice([0.05, 0.1]),
                   "p_resume_now": rng.choice([0.0, 0.3, 0.6]), "odd_fetch": rng.choice([0.0, 0.1]), "bad": 0.0},
         }
+    yield from gen_loop_cases(rng, tier)
+
+
+def gen_loop_cases(rng, tier):
+    from streams import loop
+    k = 0
+    while k < (30 if tier == "quick" else 400):
+        spec = loop.gen_spec(rng, tier)
+        if spec["backend"] != "script":
+            continue
+        sp = spec["scheduler"]
+        pr = (sp["kind"] == "hb" and "promotion" in sp.get("type", "")) or sp["kind"] in ("sync", "pbt", "script", "dehb")
+        if not pr and rng.random() < 0.7:
+            continue  # mostly pause-and-resume schedulers
+        spec["stream"] = "loop"
+        spec["inject"] = None
+        k += 1
+        yield spec
 
 
 def corpus():
@@ -262,9 +282,38 @@ def sim_monitor(spec, trace):
     return out, resumes
 
 
+def run_impl_loop(spec):
+    """third stream: the whole tuning loop (real Tuner.run on the scripted backend, model Drivers/Loop.lean). The poll stream
+    covers what one poll does with the results of the trials it is given; this one covers WHICH trials are polled: every trial
+    that occupies a worker is in the set handed to fetch_status_results, so that its results are fetched at all."""
+    from streams import loop
+    t = loop.run_loop(spec)
+    try:
+        lines = loop.to_lines(t)
+        mon = []
+        known = [f for f in loop.monitor_c01(t) if f["signature"] == "c01:trial-never-polled-after-rebind"]
+        mon.extend(known)  # (F15: recorded for C02 as well)
+        # (with a delayed stop a trial keeps its worker for a while after the loop has stopped polling it: not judged)
+        if not known and not t.get("skipped") and not (spec.get("backend_params") or {}).get("stop_delay"):
+            for e in t["dlg"].entries:
+                c = e["call"]
+                if c[:2] == ["be", "fetch"] and e.get("_occ") is not None and e["_occ"] > len(c[2]) and isinstance(e.get("ans"), dict):
+                    mon.append({"signature": "c02:running-trial-not-polled",
+                                "what": f"{e['_occ']} trials occupy workers, the poll asks for the results of {c[2]} only: what the "
+                                        f"others report is never fetched", "detail": {"call": c}})
+                    break
+        kinds = loop.call_kinds(t)
+        return {"lines": lines, "driver": LOOP_DRIVER, "monitor": mon,
+                "meta": {"hist": {"loop:cases": 1, "loop:resumes": int("be.resume" in kinds)}, "resumes": int("be.resume" in kinds), "hidden": 0}}
+    finally:
+        loop.cleanup(t)
+
+
 def run_impl(spec):
     if spec.get("stream") == "sim":
         return run_impl_sim(spec)
+    if spec.get("stream") == "loop":
+        return run_impl_loop(spec)
     t = poll.run_scenario(spec)
     mon, hidden = poll_monitor(t["events"])
     hist = dict(t["hist"])
@@ -301,5 +350,5 @@ def run_impl_sim(spec):
 
 
 def extra(ctx):
-    ctx.notes["streams"] = ["poll (Drivers/Poll.lean)", "sim (Drivers/Sim.lean)"]
+    ctx.notes["streams"] = ["poll (Drivers/Poll.lean)", "sim (Drivers/Sim.lean)", "loop (Drivers/Loop.lean)"]
     ctx.notes["lean_counterexamples_replayed"] = [STALE_HISTORY["lean_counterexample"], SIM_STALE_HISTORY["lean_counterexample"]]
